@@ -51,6 +51,9 @@ def main(args):
     try:
         archive_version_index = None
         staging_path = ctx.output_path / ARCHIVE_STAGING
+        # A restore that was killed leaves its staging directory behind. Those
+        # files must not be mistaken for the contents of this archive.
+        shutil.rmtree(staging_path, ignore_errors=True)
         staging_path.mkdir(exist_ok=True)
         extract_archive(archive_file, staging_path)
 
